@@ -158,7 +158,9 @@ func checkC13(c *chk.Ctx) {
 	if err != nil {
 		c.Broken("go build: %v", err)
 	}
-	_ = out
+	if chk.ToolchainFailure(out) {
+		c.Broken("the Go toolchain failed underneath the check (build cache removed while building?): %s", firstN(out, 400))
+	}
 	vetFails := map[string]string{}
 	// vet only what builds (vet needs type information)
 	var vetPatterns []string
